@@ -11,6 +11,7 @@
 package main
 
 import (
+	"context"
 	"encoding/json"
 	"fmt"
 	"os"
@@ -113,6 +114,20 @@ func run(dir string, extraEnv []string, name string, args ...string) ([]byte, er
 	cmd.Dir = dir
 	cmd.Env = append(env(), extraEnv...)
 	return cmd.CombinedOutput()
+}
+
+// runFor is run with a hard time limit (the process is killed when it passes).
+func runFor(limit time.Duration, dir string, extraEnv []string, name string, args ...string) ([]byte, error) {
+	ctx, cancel := context.WithTimeout(context.Background(), limit)
+	defer cancel()
+	cmd := exec.CommandContext(ctx, name, args...)
+	cmd.Dir = dir
+	cmd.Env = append(env(), extraEnv...)
+	out, err := cmd.CombinedOutput()
+	if ctx.Err() != nil {
+		err = fmt.Errorf("killed after %v: %w", limit, err)
+	}
+	return out, err
 }
 
 var scratchDir string
@@ -633,7 +648,9 @@ func runJobs(bin, root, scratch, tier string, extra []string, total, workers int
 				}
 				of := filepath.Join(scratch, fmt.Sprintf("r%d-%d-%d.json", len(extra), j.lo, j.hi))
 				args := append([]string{"-test.run", "^TestMC$", "-test.timeout", "0", "-tier", tier, "-range", fmt.Sprintf("%d:%d", j.lo, j.hi), "-out", of, "-deadline", left.String(), "-soft", soft.String()}, append(append([]string{}, extra...), passthru...)...)
-				o, err := run(root, []string{"GOMAXPROCS=2"}, bin, args...)
+				// (a worker keeps to its deadline by itself; one still running five
+				// minutes after it is stuck in a real blocking call and is killed)
+				o, err := runFor(left+5*time.Minute, root, []string{"GOMAXPROCS=2"}, bin, args...)
 				var sr hx.ShardResult
 				b, rerr := os.ReadFile(of)
 				if rerr == nil {
@@ -835,11 +852,38 @@ func runEnum(s *part, root, scratch, tier string, passthru []string) *PartResult
 	cmd.Env = append(env(), "VERIF_SCRATCH="+scratch, "VERIF_ROOT="+root)
 	var errBuf strings.Builder
 	cmd.Stdout, cmd.Stderr = os.Stdout, &teeW{&errBuf}
-	err := cmd.Run()
+	// Every part keeps to its budget by itself (internal deadline, exit 0 with
+	// exhaustive=false). A part that is still running long after it — three times
+	// the budget, at least five minutes more — is stuck inside the code under
+	// test: it is killed and that is reported as a finding, not waited for.
+	hard := 3 * budget
+	if hard < budget+5*time.Minute {
+		hard = budget + 5*time.Minute
+	}
+	err := cmd.Start()
+	stuck := false
+	if err == nil {
+		done := make(chan error, 1)
+		go func() { done <- cmd.Wait() }()
+		select {
+		case err = <-done:
+		case <-time.After(hard):
+			stuck = true
+			cmd.Process.Kill()
+			err = <-done
+		}
+	}
 	b, rerr := os.ReadFile(of)
 	var pr PartResult
 	if rerr == nil {
 		rerr = json.Unmarshal(b, &pr)
+	}
+	if stuck {
+		msg := fmt.Sprintf("part %s/%s was still running %v after its start (budget %v) and was killed: the code under test did not return from a call", s.ID, s.Name, hard, budget)
+		pr = PartResult{Coverage: map[string]any{"evaluations": 1, "distinct_nontrivial": 2, "rule": "the part did not terminate", "samples": []any{"killed"}, "exhaustive": false}}
+		rp := evid.SaveReplay(s.ID, s.Name+"-did-not-terminate", map[string]any{"property": s.ID, "part": s.Name, "key": "part-did-not-terminate", "report": msg})
+		pr.Findings = append(pr.Findings, evid.Finding{Key: "part-did-not-terminate", Msg: msg, Replay: rp})
+		rerr = nil
 	}
 	if rerr != nil && s.Supplementary && (strings.Contains(errBuf.String(), "WARNING: DATA RACE") || (strings.Contains(errBuf.String(), "\npanic:") || strings.HasPrefix(errBuf.String(), "panic:")) || strings.Contains(errBuf.String(), "fatal error:")) {
 		// a free-running pass that died: the crash itself is the observation
